@@ -152,7 +152,8 @@ code and listed in `known_findings.d/C18.json`. -/
 
 /-- **C18_sem_partial** — for every oracle (every behaviour of the called functions, every pure
 interpretation of the operators), every configuration, every global environment and all arguments:
-if `p` is a function of the fragment `fragFn cfg p` — straight-line / `if` / `for` code over variables,
+if `p` is a function of the fragment `fragFn cfg p` — straight-line / `if` / `for` / `try`-`except`-`else`-`finally`
+code over variables,
 constants, calls with positional arguments, attribute / item loads, unary / binary operators, single
 comparisons, tuple / list / set displays and `:=`, in which for every node no operand is overtaken
 (`okT`: the later operands create no pending statement and are hoisted only if the earlier one is), unless the
@@ -161,7 +162,7 @@ earlier operand is a variable or unselected constant that the later ones do not 
 same effect log in the same order.
 
 Missing for the full statement: the hazard classes of `hazards` (genuine defects, counterexamples below);
-`with` / `try` / `while` / augmented, attribute, item and unpacking assignments / `del` / keyword, `*`, `**`
+`with` / `while` / `raise` / augmented, attribute, item and unpacking assignments / `del` / keyword, `*`, `**`
 arguments / dict displays / slices (modelled, differentially tested against CPython and the real transformer,
 not proved); operands that are pure but not atoms in front of an overtaking operand. -/
 theorem C18_sem_partial (O : Oracle) (cfg : Config) (p q : Stmt) (genv : Env) (args : List Val)
